@@ -134,6 +134,8 @@ def _doc(draw):
         k = draw(st.integers(2, 4))
         rec["sections"] = [draw(_section(draw(_colors(4)) if draw(st.booleans()) else pal, i, True)) for i in range(k)]
         rec["header_layout"] = "nested"
+    if draw(st.integers(0, 9)) < 3:
+        rec["page"]["use_color"] = draw(st.booleans())      # documented RTFPage option; must not detach indices from the table
     if draw(st.integers(0, 9)) < 7:
         rec["title"] = draw(_text_comp("@T", pal))
     if draw(st.integers(0, 9)) < 3:
